@@ -149,6 +149,29 @@ func checkMain(args []string) {
 			json.Unmarshal(b, &pinned)
 		}
 		prog.localPinList = pinned["_locals"]
+		if pl, ok := pinned["_loops"]; ok {
+			prog.pinnedLoops = map[string][]pinnedLoop{}
+			for _, e := range pl {
+				parts := strings.SplitN(e, "|", 3)
+				if len(parts) == 3 {
+					var o int
+					fmt.Sscanf(parts[1], "%d", &o)
+					prog.pinnedLoops[parts[0]] = append(prog.pinnedLoops[parts[0]], pinnedLoop{ord: o, text: parts[2]})
+				}
+			}
+		}
+		if pf, ok := pinned["_funcs"]; ok {
+			prog.pinnedFuncs = map[string]bool{}
+			for _, f := range pf {
+				prog.pinnedFuncs[f] = true
+			}
+		}
+		if pf, ok := pinned["_fields"]; ok {
+			prog.pinnedFields = map[string]bool{}
+			for _, f := range pf {
+				prog.pinnedFields[f] = true
+			}
+		}
 	}
 	known := loadKnownFindings(filepath.Join(*verif, "known_findings.txt"))
 	// select functions
@@ -425,6 +448,61 @@ func checkMain(args []string) {
 			}
 		}
 		pins["_locals"] = dedup
+		// struct fields of the repository known when the contracts were pinned (union over the properties' loads)
+		fs := map[string]bool{}
+		for _, f := range pins["_fields"] {
+			fs[f] = true
+		}
+		for _, f := range prog.repoFields() {
+			fs[f] = true
+		}
+		pins["_fields"] = sortedKeys(fs)
+		// the loops that carry invariants: ordinal and opening line (see remapLoops)
+		{
+			keep := map[string]bool{}
+			var mineFns = map[string]bool{}
+			var add []string
+			for _, r := range results {
+				if r.Contract == nil || len(r.Contract.LoopInv) == 0 {
+					continue
+				}
+				n := r.Contract.Name
+				if n == "" {
+					n = r.Name
+				}
+				fn := prog.funcs[n]
+				if fn == nil {
+					continue
+				}
+				mineFns[n] = true
+				saved := prog.pinnedLoops
+				prog.pinnedLoops = nil
+				loops, bodies := findLoops(fn)
+				prog.pinnedLoops = saved
+				for h, o := range loops {
+					if len(r.Contract.LoopInv[o]) > 0 || r.Contract.LoopDec[o] != nil {
+						add = append(add, fmt.Sprintf("%s|%d|%s", n, o, prog.loopText(h, bodies[h])))
+					}
+				}
+			}
+			for _, e := range pins["_loops"] {
+				if i := strings.Index(e, "|"); i > 0 && !mineFns[e[:i]] {
+					keep[e] = true
+				}
+			}
+			for _, e := range add {
+				keep[e] = true
+			}
+			pins["_loops"] = sortedKeys(keep)
+		}
+		fns := map[string]bool{}
+		for _, f := range pins["_funcs"] {
+			fns[f] = true
+		}
+		for _, name := range prog.sortedFuncNames() {
+			fns[name] = true
+		}
+		pins["_funcs"] = sortedKeys(fns)
 		b, _ := json.MarshalIndent(pins, "", " ")
 		os.WriteFile(pinsPath, b, 0o644)
 	} else if want, ok := pins[prop]; ok {
